@@ -10,6 +10,7 @@ import (
 	"strings"
 	"time"
 
+	"github.com/openconfig/gnmi/proto/gnmi"
 	cconfig "github.com/sdcio/cache/pkg/config"
 	"github.com/sdcio/cache/proto/cachepb"
 	sdcpb "github.com/sdcio/sdc-protos/sdcpb"
@@ -41,6 +42,10 @@ type Opts struct {
 	WrapCache          func(cache.Client) cache.Client
 	WrapSchema         func(dschema.Client) dschema.Client
 	CaptureEncodings   bool
+	// DevKind selects the device front end: "" / "direct" (a target.Target reading the proto view of the tree), or
+	// "gnmi-proto" / "gnmi-json" / "gnmi-json_ietf": the REAL gnmiTarget around an in-process gnmi client that decodes the
+	// wire requests (world.GNMIFront). With a wire front end a shadow direct device sees the same tree first (Shadow).
+	DevKind string
 }
 
 // World is one simulated deployment: real datastore + real cache + real schema store + stub device.
@@ -52,6 +57,9 @@ type World struct {
 	Cache    cache.Client
 	SchemaC  dschema.Client
 	Dev      *Device
+	// Shadow: with a wire front end, a direct device that is handed the same tree right before the real target
+	// (its state is what the proto view of every Set amounts to); nil for the direct kind
+	Shadow   *Device
 	Cfg      *config.DatastoreConfig
 	DS       *datastore.Datastore
 	Srv      *server.Server
@@ -119,7 +127,20 @@ func (w *World) boot() error {
 		},
 	}
 	w.Ctx, w.Cancel = context.WithCancel(PeerCtx(context.Background(), "10.0.0.1:1000"))
-	w.DS = datastore.VerifNew(w.Ctx, w.Cfg, w.SchemaC, w.Cache, w.Dev)
+	var tgt target.Target = w.Dev
+	if strings.HasPrefix(w.Opts.DevKind, "gnmi-") {
+		enc := strings.TrimPrefix(w.Opts.DevKind, "gnmi-")
+		encs := []gnmi.Encoding{gnmi.Encoding_JSON_IETF, gnmi.Encoding_JSON, gnmi.Encoding_PROTO}
+		front := &GNMIFront{Dev: w.Dev, Encodings: encs}
+		w.Cfg.SBI = &config.SBI{Type: "gnmi", GnmiOptions: &config.SBIGnmiOptions{Encoding: enc}}
+		real := target.VerifNewGNMITarget(DSName, w.Cfg.SBI, front, encs...)
+		if w.Shadow == nil {
+			w.Shadow = NewDevice(w.SI, func(string, ...any) {})
+			w.Shadow.State = w.Dev.State.Clone()
+		}
+		tgt = &teeTarget{real: real, shadow: w.Shadow}
+	}
+	w.DS = datastore.VerifNew(w.Ctx, w.Cfg, w.SchemaC, w.Cache, tgt)
 	txto := w.Opts.TxTimeout
 	if txto == 0 {
 		txto = 30 * time.Second
@@ -155,6 +176,30 @@ func (w *World) NoteTimer(d time.Duration) {
 		w.MaxTimer = d
 	}
 }
+
+// teeTarget hands every Set to a shadow direct device first (which only reads the proto view and records it) and then to
+// the real target, whose wire request reaches the front end of the main device.
+type teeTarget struct {
+	real   target.Target
+	shadow *Device
+}
+
+func (t *teeTarget) Set(ctx context.Context, source target.TargetSource) (*sdcpb.SetDataResponse, error) {
+	if _, err := t.shadow.Set(ctx, source); err != nil {
+		return nil, fmt.Errorf("shadow device: %w", err)
+	}
+	return t.real.Set(ctx, source)
+}
+func (t *teeTarget) Get(ctx context.Context, req *sdcpb.GetDataRequest) (*sdcpb.GetDataResponse, error) {
+	return t.real.Get(ctx, req)
+}
+func (t *teeTarget) Sync(ctx context.Context, cfg *config.Sync, ch chan *target.SyncUpdate) {
+	<-ctx.Done()
+}
+func (t *teeTarget) Status() *target.TargetStatus {
+	return target.NewTargetStatus(target.TargetStatusConnected)
+}
+func (t *teeTarget) Close() error { return nil }
 
 func PeerCtx(ctx context.Context, addr string) context.Context {
 	a, _ := net.ResolveTCPAddr("tcp", addr)
@@ -259,6 +304,9 @@ func (w *World) SeedRunning(leaves []*Leaf) error {
 	var upds []*cache.Update
 	for _, l := range leaves {
 		w.Dev.State.Set(l)
+		if w.Shadow != nil {
+			w.Shadow.State.Set(l)
+		}
 		u, err := w.RawCache.NewUpdate(&sdcpb.Update{Path: l.Path.ToSdcpb(), Value: l.TV})
 		if err != nil {
 			return err
